@@ -219,7 +219,7 @@ Definition inv_emutex (g : globals) (t : tid) (th : thread) : Prop :=
 
 Lemma init_thread_nth : forall progs t th,
   nth_error (map (fun bp : bool * list op => init_thread (fst bp) (snd bp)) progs) t = Some th ->
-  th_pc th = PIdle /\ th_cur th = None /\ th_pub = th_pub /\ th_read th = None /\ th_pub th = None /\
+  th_pc th = PIdle /\ th_cur th = None /\ th_inv th = 0 /\ th_read th = None /\ th_pub th = None /\
   th_cancelled th = false /\ th_results th = [] /\ th_streams th = 0 /\ th_inv th = 0.
 Proof.
   intros. rewrite nth_error_map in H. destruct (nth_error progs t); simpl in H; inversion H; subst.
